@@ -168,6 +168,21 @@ pub type Map<K, V> = crate::verif_kmap::HashMap<K, V, HS>;
 #[cfg(not(kani))]
 pub type Map<K, V> = std::collections::HashMap<K, V, HS>;
 
+/// The `Vec` the policy / ring modules use: the bounded model under Kani, std natively.
+#[cfg(kani)]
+pub type KVec<T> = crate::verif_kvec::Vec<T>;
+#[cfg(not(kani))]
+pub type KVec<T> = std::vec::Vec<T>;
+
+#[cfg(kani)]
+pub fn kv<T: Copy + Default>(s: &[T]) -> KVec<T> {
+    crate::verif_kvec::Vec::from_slice(s)
+}
+#[cfg(not(kani))]
+pub fn kv<T: Copy + Default>(s: &[T]) -> KVec<T> {
+    s.to_vec()
+}
+
 /// Build a map from (up to 3) entries placed in the given slots. Under Kani the slot positions are
 /// the iteration order; natively the real HashMap decides. Keys must be distinct (caller assumes).
 #[cfg(kani)]
@@ -222,7 +237,7 @@ pub mod chan {
     }
 
     fn is_batch<T>() -> bool {
-        size_of::<T>() == size_of::<Vec<u64>>()
+        size_of::<T>() == size_of::<crate::verif_kvec::Vec<u64>>()
     }
 
     pub fn try_send<T>(_s: &Sender<T>, msg: T) -> Result<(), TrySendError<T>> {
@@ -614,7 +629,7 @@ pub mod pushrec {
         }
     }
     #[cfg(kani)]
-    pub fn push<S>(_p: &crate::policy::LFUPolicy<S>, keys: Vec<u64>) -> Result<bool, crate::CacheError> {
+    pub fn push<S>(_p: &crate::policy::LFUPolicy<S>, keys: crate::verif_kvec::Vec<u64>) -> Result<bool, crate::CacheError> {
         unsafe {
             let mut i = 0;
             while i < keys.len() {
@@ -630,7 +645,6 @@ pub mod pushrec {
                 MIN_LEN = keys.len();
             }
         }
-        std::mem::forget(keys);
         let a = crate::verif_nd::any_u8();
         if a == 0 {
             Ok(true)
